@@ -76,6 +76,8 @@ func docMax(r *Rng) int {
 	}
 }
 
+var tierThorough bool // set from the worker's -tier flag; only generators read it
+
 var chunkKnobs = []int{1, 2, 3, 5, 8, 16, 64, 8192}
 
 // deliveryPoints are the end offsets of the root blocks of a fault-free
@@ -300,10 +302,14 @@ func genTotality(r *Rng, phase string) []*Scenario {
 	rs.Fault.Kind = "none"
 	rs.Ops, rs.Family = genSchedule(r, doc, len(doc), nil)
 	s.Reader = rs
-	n := 6
 	all := allRenderScns(r.U64())
-	for i := 0; i < n; i++ {
-		s.Renders = append(s.Renders, all[r.Intn(len(all))])
+	if tierThorough && phase == "healthy" {
+		// thorough: the whole SoftBreakBehavior x IgnoreRaw x FilterTag grid on every document
+		s.Renders = all
+	} else {
+		for i := 0; i < 6; i++ {
+			s.Renders = append(s.Renders, all[r.Intn(len(all))])
+		}
 	}
 	s.Walk = genWalkScn(r, 8)
 	switch phase {
